@@ -186,6 +186,8 @@ func C08(c *Ctx) {
 	r.Rule("R08.7", "explicit panics triaged: every explicit panic in the unrecovered part of block execution (executor package, outside the VM entry points) is one of the frozen, classified sites; a new one is a violation until classified.")
 	r.Rule("R08.8", "revert at most once: in the executor no snapshot id is handed to RevertToSnapshot twice on one path (the ledger panics on an id that was already reverted); a revert closure that may be invoked more than once guards itself with a once-flag.")
 	r.Rule("R08.9", "the one contract that runs unrecovered stays panic-free on sender-chosen strings: in the own bodies of the InterBroker entries (reached from evmInterchain through InvokeBVM, outside the recover of BoltVM.Run) every constant index s[k] into a list obtained from strings.Split / SplitN lies behind a test of len(s) that implies len(s) > k.")
+	r.Rule("R08.10", journalResetText)
+	c.journalReset("R08.10")
 	r.NotDecided = append(r.NotDecided, "implicit run-time panics (nil / bounds) inside dependencies and in ledger code reached with well-formed arguments; blocking and deadlock; resource exhaustion; termination of WASM / EVM code (fuel / gas are trusted); configuration-dependent failures (unknown proof type); panics classified as storage faults; a ledger invariant panic (RevertToSnapshot on a revision that a mid-transaction Finalise discarded: seed C08-r9)")
 
 	// R08.1
